@@ -16,12 +16,12 @@ pub fn def() -> PropDef {
     PropDef {
         id: "C03",
         level: "exploration",
-        rule: "Generated corpora (size classes 0-20 / 120-140 / 250-260 / ~1000-1500 / ~4300-6000 documents; Zipf vocabulary with prefix-, edit- and regex-neighbours; mark terms present in exactly 0/1/127/128/129/256/1025/4100/all documents; multi-valued positional text, tags, u64/i64(term-dict only)/f64/date/ip/string values with missing values) x segmentation (0-6 cuts, 1-2 indexing threads, sorted or not) x deletes, and per corpus 30-40 generated query trees of depth <= 3 over term (all record options), phrase (slop), phrase-prefix, range on six field kinds (inclusive/exclusive/unbounded/empty/inverted), term-set, exists, all, empty, fuzzy (distance 0-2, transposition flag, prefix), regex, boost, const-score, dismax and boolean (must/should/must-not, minimum_should_match 0..4). Oracle: a naive evaluator over the live model documents; the uid set must be returned identically by DocSetCollector, Count, Query::count, TopDocs(limit >= N) by score, (Count, DocSet) tuple and MultiCollector, and FilterCollector (restricted to even uids), and again after merging all segments into one. Non-trivial = 0 < |result| < live documents and (>= 2 segments or >= 1 delete); distinct by hash(corpus, query).",
+        rule: "Generated corpora (size classes 0-20 / 120-140 / 250-260 / ~1000-1500 / ~4300-6000 documents; Zipf vocabulary with prefix-, edit- and regex-neighbours; mark terms present in exactly 0/1/127/128/129/256/1025/4100/all documents; multi-valued positional text, tags, u64/i64(term-dict only)/f64/date/ip/string values with missing values) x segmentation (0-6 cuts, 1-2 indexing threads, sorted or not) x deletes, and per corpus 30-40 generated query trees of depth <= 3 over term (all record options), phrase (slop), phrase-prefix, range on six field kinds (inclusive/exclusive/unbounded/empty/inverted), term-set, exists, all, empty, fuzzy (distance 0-2, transposition flag, prefix), regex, boost, const-score, dismax and boolean (must/should/must-not, minimum_should_match 0..4). Oracle: a naive evaluator over the live model documents; the uid set must be returned identically by DocSetCollector, Count, Query::count, TopDocs(limit >= N) by score, (Count, DocSet) tuple and MultiCollector, and FilterCollector (restricted to even uids), and again after merging all segments into one. Non-trivial = 0 < |result| < live documents and (>= 2 segments or >= 1 delete); distinct by hash(corpus, query). typed_fields: the field types the main model lacks - a JSON object field (tokenised text with positions, keywords, integers, fractional floats, nested sub-paths, a key that is a scalar in some documents and an object in others; indexed and fast, expand_dots on/off), facets (nested paths), bool and bytes - with term, phrase, typed numeric term, numeric range, term-set, exists (exact path and with sub-paths), facet-prefix, bool/bytes term queries and boolean combinations, against a naive evaluator through DocSetCollector, Count, Query::count and TopDocs, over segmentations, deletes and a merge.",
         assumptions: vec![
             "text is ASCII word text by construction (tokenisation is C19's subject)",
             "fuzzy leaves where restricted and unrestricted Damerau distance disagree are excluded (counted); sloppy phrases with repeated terms are generated with slop 0 (no documented meaning)",
         ],
-        subs: vec![Box::new(Sem)],
+        subs: vec![Box::new(Sem), Box::new(super::c03_typed::Typed)],
     }
 }
 
